@@ -225,6 +225,36 @@ GROUPS = {
 }
 
 
+def find_fn_pkg(repo, name, first="core.py"):
+    """a module-level function of the package, wherever a refactoring may have moved it: (FunctionDef, module ast)"""
+    order = [first] + [f for f in ("core.py", "util.py", "io.py") if f != first]
+    hits = []
+    for f in order:
+        path = os.path.join(repo, "auditok", f)
+        if not os.path.exists(path):
+            continue
+        mod = ast.parse(open(path).read())
+        for n in mod.body:
+            if isinstance(n, ast.FunctionDef) and n.name == name:
+                hits.append((n, mod))
+    if len(hits) != 1:
+        raise TranslationError("%s not found exactly once in the package (%d)" % (name, len(hits)))
+    return hits[0]
+
+
+def epsilon_name(core):
+    """the module constant split() passes (with either sign) as fourth argument of _duration_to_nb_windows"""
+    names = set()
+    for n in ast.walk(core):
+        if isinstance(n, ast.Call) and isinstance(n.func, ast.Name) and n.func.id == "_duration_to_nb_windows" and len(n.args) == 4:
+            a = n.args[3]
+            if isinstance(a, ast.UnaryOp) and isinstance(a.op, ast.USub):
+                a = a.operand
+            if isinstance(a, ast.Name):
+                names.add(a.id)
+    return names.pop() if len(names) == 1 else "_EPSILON"
+
+
 def gen_dur(repo):
     core = ast.parse(open(os.path.join(repo, "auditok", "core.py")).read())
     out = list(HEADER)
@@ -233,13 +263,14 @@ def gen_dur(repo):
         if isinstance(n, ast.Assign) and len(n.targets) == 1 and isinstance(n.targets[0], ast.Name) and isinstance(n.value, ast.Constant) \
                 and isinstance(n.value.value, (int, float)) and not isinstance(n.value.value, bool):
             consts[n.targets[0].id] = n.value.value
-    if "_EPSILON" not in consts:
-        raise TranslationError("core._EPSILON is not a literal constant")
+    eps = epsilon_name(core)
+    if eps not in consts:
+        raise TranslationError("the rounding epsilon (core.%s) is not a literal constant" % eps)
     from .pure import flit
-    out.append("Definition EPSILON : f64 := %s.   (* core._EPSILON = %r *)\n" % (flit(consts["_EPSILON"]), consts["_EPSILON"]))
-    fn = find_function(core, "_duration_to_nb_windows")
+    out.append("Definition EPSILON : f64 := %s.   (* core.%s = %r *)\n" % (flit(consts[eps]), eps, consts[eps]))
+    fn, fmod = find_fn_pkg(repo, "_duration_to_nb_windows")
     sp = Spec("nbw_gen", [("duration", "F"), ("analysis_window", "F"), ("round_fn", "round_fn"), ("epsilon", "F")], ret_result_Z)
-    out.append(Pure(fn, sp, module=core).translate())
+    out.append(Pure(fn, sp, module=fmod).translate())
     # how split() calls it: (duration variable, rounding function, sign of the epsilon) per derived count
     calls = {}
     for n in ast.walk(core):        # split() itself, or helpers a refactoring may have moved the derivation into
@@ -250,7 +281,7 @@ def gen_dur(repo):
                 bad(n, "call of _duration_to_nb_windows in split()")
             if n.targets[0].id in calls:
                 bad(n, "window count %s derived twice" % n.targets[0].id)
-            calls[n.targets[0].id] = (ast.unparse(a[0]), ast.unparse(a[1]), ast.unparse(a[2]), ast.unparse(a[3]))
+            calls[n.targets[0].id] = (ast.unparse(a[0]), ast.unparse(a[1]), ast.unparse(a[2]), ast.unparse(a[3]).replace(eps, "_EPSILON"))
     out.append("Definition split_calls : list (string * (string * string * string * string)) := [")
     rows = ['  ("%s", ("%s", "%s", "%s", "%s"))' % ((k,) + v) for k, v in sorted(calls.items())]
     out.append(";\n".join(rows))
@@ -654,7 +685,7 @@ def gen_split(repo):
         if isinstance(n, ast.Assign) and len(n.targets) == 1 and isinstance(n.targets[0], ast.Name) and isinstance(n.value, ast.Constant) \
                 and isinstance(n.value.value, float):
             consts[n.targets[0].id] = V(flit(n.value.value), "F", n.value.value, True)
-    callee = find_function(core, "_duration_to_nb_windows")
+    callee = find_fn_pkg(repo, "_duration_to_nb_windows")[0]
     f1 = slice_split(core, False)
     sp = Spec("split_params_gen", [("min_dur", "F"), ("max_dur", "F"), ("max_silence", "F"), ("analysis_window", "F"), ("sampling_rate", "Z")], ret_counts)
     out.append("(* slice of split() for inputs that are not an AudioReader:\n" + ast.unparse(f1) + "\n*)")
@@ -1419,7 +1450,7 @@ def ret_load(tr, v, env, node):
 
 def gen_load(repo):
     core = ast.parse(open(os.path.join(repo, "auditok", "core.py")).read())
-    fn = find_function(core, "_read_offline")
+    fn = find_fn_pkg(repo, "_read_offline")[0]
     if fn.args.kwarg is None or [a.arg for a in fn.args.args] != ["input", "skip", "max_read"]:
         raise TranslationError("_read_offline signature changed")
     f = ast.parse(ast.unparse(fn)).body[0]
